@@ -170,6 +170,34 @@ pub fn install_empty(r: &mut Rep, a: u8, b: u8, form: u8, pre: bool) {
     }
 }
 
+/// installations performed while different code segments are current (the CS register is emulated in step mode): every gate a
+/// call installs names the code segment that is current during THAT call, however often and under whichever CS the program
+/// installed gates before
+fn install_under_changing_cs(r: &mut Rep) {
+    use crate::simcpu::{cpu, run_stepped};
+    crate::simcpu::init();
+    let mut t = InterruptDescriptorTable::new();
+    for (step, (cs, lo, hi)) in [(0x28u16, 0u8, 31u8), (0x08, 32, 47), (0x08, 0, 31), (0x33, 100, 103), (0x10, 14, 14)].into_iter().enumerate() {
+        cpu().sel[1] = cs;
+        cpu().clear_events();
+        let res = run_stepped(|| do_install(&mut t, lo, hi, 0));
+        r.ev(true);
+        r.transitions += cpu().evs().len() as u64;
+        let b = table_bytes(&t);
+        for v in lo..=hi {
+            if RESERVED_VECTORS.contains(&v) {
+                continue;
+            }
+            let g = decode_gate(b[16 * v as usize..16 * v as usize + 16].try_into().unwrap());
+            if res.is_err() || !g.p || g.selector != cs {
+                r.viol("C13|install|gate-does-not-name-the-code-segment-current-at-the-time-of-the-installation", &format!("installcs step {} cs={:#x} range {}..={}", step, cs, lo, hi), &format!("vector {} selector {:#x} present {}", v, g.selector, g.p));
+                break;
+            }
+        }
+    }
+    cpu().sel[1] = native_cs();
+}
+
 fn install_forms(r: &mut Rep) {
     // single-index and full-table forms of the macro
     let mut t = InterruptDescriptorTable::new();
@@ -502,6 +530,7 @@ pub fn run(a: &Args) {
             "entryframe" => { crate::simcpu::init(); crate::c13iret::entry_frames(&mut r, &Args { prop: "C13".into(), tier: "thorough".into(), shard: 0, nshards: 1, replay: None, extra: vec![] }) }
             "highgate" => high_half_gates(&mut r),
             "installonce" => install_forms(&mut r),
+            "installcs" => install_under_changing_cs(&mut r),
             "installempty" => install_empty(&mut r, t[1].parse().unwrap(), t[2].parse().unwrap(), t[3].parse().unwrap(), t[4] == "true"),
             _ => install_forms(&mut r),
         }
@@ -565,6 +594,9 @@ pub fn run(a: &Args) {
                 }
             }
         }
+    }
+    if a.shard == 1 % a.nshards {
+        guarded(&mut r, "C13|install|unexpected-panic", || "installcs".into(), |r| install_under_changing_cs(r));
     }
     if a.shard == 0 {
         install_forms(&mut r);
